@@ -171,7 +171,7 @@ def one(rec, t, ti, name, obj, mode):
     br.enum_as_int = (rec.evals % 4 == 3)
     # array parameters are documented as Iterable: lists, tuples, one-shot generators, a bytearray and a read-only
     # Sequence view take turns
-    form = (rec.evals // 4) % 5
+    form = (rec.evals // 4) % 7
     rec.seen("array-argument-forms", form)
     try:
         real = br.build(obj, array_form=form)
